@@ -58,6 +58,7 @@ DEFAULT_KNOBS = dict(
     value_kinds=["id", "id", "int"],
     p_assign_style=0.3,
     p_multi_group_name=0.0,
+    p_attach_style=0.0,
 )
 
 
@@ -285,8 +286,41 @@ def gen_program(rnd, k, idx=0, name=None):
                 form = rnd.choice(["{a} and {b}", "{a} or {b}", "not {a}", "{a} and not {b}",
                                    "not {a} or {b}"])
                 t.setdefault("cond", []).append(form.format(a=a, b=b))
-    # drop unused listener classes from the role list? keep: an empty listener is legal.
+    assign_styles(rnd, prog, k["p_attach_style"])
     return prog
+
+
+def assign_styles(rnd, prog, p):
+    """Attach some machine-defined callbacks by callable object or by decorator instead of by name.
+    Only names that the machine alone provides (a callable reference is not looked up on the model
+    or on listeners), and for decorators only where the decorator syntax can express it."""
+    if p <= 0:
+        return
+    provs = {}
+    for c in prog["cbs"]:
+        provs.setdefault(c.split(".", 1)[1], []).append(c)
+    conv = {"before_transition", "on_transition", "after_transition", "on_enter_state", "on_exit_state"}
+    for c in sorted(prog["cbs"]):
+        if not c.startswith("machine."):
+            continue
+        name = c.split(".", 1)[1]
+        if len(provs[name]) != 1 or name in conv or name.startswith(("on_enter_", "on_exit_")):
+            continue
+        uses_t = [(t, g) for t in prog["trans"] for g in ("validators", "cond", "unless", "before", "on", "after")
+                  if name in t.get(g, [])]
+        uses_s = [(s_, g) for s_ in prog["states"] for g in ("enter", "exit") if name in s_.get(g, [])]
+        if not uses_t and not uses_s:
+            continue  # a naming-convention callback (before_<event> ...)
+        in_expr = any(name in e and not e.isidentifier() for t in prog["trans"]
+                      for e in list(t.get("cond", [])) + list(t.get("unless", [])))
+        if in_expr or rnd.random() >= p:
+            continue
+        deco_ok = all(t.get("assign") for t, _g in uses_t)
+        # a decorator on an assigned TransitionList adds the callback to every transition of that list
+        if deco_ok and rnd.random() < 0.5:
+            prog["cbs"][c]["style"] = "decorator"
+        else:
+            prog["cbs"][c]["style"] = "callable"
 
 
 def all_roles(prog):
